@@ -22,7 +22,7 @@ pub struct DJob {
 /// jobs whose edit is an option variation are not compared with the intact conversion
 /// (another legal option value may legitimately drop an optional link)
 pub fn is_option_variation(e: &Edit) -> bool {
-    matches!(e, Edit::ValueSwap { .. })
+    !matches!(e, Edit::DefRenamed { .. } | Edit::DefRemoved { .. } | Edit::RefRenamed { .. } | Edit::Intact)
 }
 
 impl DJob {
@@ -156,7 +156,7 @@ pub fn simplicity(j: &DJob) -> (usize, usize, usize, usize) {
         Edit::TruncAfter { .. } => 2,
         Edit::DupLine { .. } => 3,
         Edit::BlockRemoved { .. } | Edit::DefRemoved { .. } => 4,
-        Edit::RenameQuoted { .. } | Edit::DefRenamed { .. } | Edit::RefRenamed { .. } => 5,
+        Edit::RenameQuoted { .. } | Edit::RenameQuotedUnicode { .. } | Edit::DefRenamed { .. } | Edit::RefRenamed { .. } => 5,
         Edit::NumToText { .. } => 6,
         Edit::NumOor { .. } => 7,
         _ => 8,
